@@ -21,6 +21,8 @@ static myth_mutex_t g_m;
 static witness_t g_w;
 static cvm_t g_cv[8];
 static int g_migrated, g_blocked;
+static int g_unlocked;     /* 1: signal / broadcast are issued after the mutex has been released (lock; change predicate; unlock; signal) */
+static long g_unlocked_notifies;
 
 static void m_lock(void) { myth_mutex_lock(&g_m); wit_enter(&g_w, "lock"); }
 static void m_unlock(void) { wit_leave(&g_w, "unlock"); myth_mutex_unlock(&g_m); }
@@ -35,7 +37,7 @@ static void cv_wait(cvm_t * c) {
   if (myth_get_worker_num() != w0) g_migrated++;
   if (HIT(MVP_BLOCK_CB_B) != b0) g_blocked++;
   c->returns++;
-  if (c->returns > c->credits)
+  if (!g_unlocked && c->returns > c->credits)
     mt_fail("cond_wait returned without a signal/broadcast issued while it was waiting (returns=%ld credits=%ld)",
             c->returns, c->credits);
   mv_progress();
@@ -45,6 +47,11 @@ static void cv_signal(cvm_t * c) {
   myth_cond_signal(&c->cv);
   mv_progress();
 }
+/* the unlocked idiom: the caller has already released the mutex; the set of waiters is not stable at
+   this instant, so no wake credit is computed -- a lost wake-up shows as a hang, a duplicate one as
+   a surplus return that the predicate loop absorbs */
+static void cv_signal_unlocked(cvm_t * c) { g_unlocked_notifies++; myth_cond_signal(&c->cv); mv_progress(); }
+static void cv_broadcast_unlocked(cvm_t * c) { g_unlocked_notifies++; myth_cond_broadcast(&c->cv); mv_progress(); }
 static void cv_broadcast(cvm_t * c) {
   if (c->sleeping == 0) c->nowaiter_signals++;
   c->credits += c->sleeping; c->sleeping = 0;
@@ -69,8 +76,9 @@ static void * bb_producer(void * a) {
     m_lock();
     while (bb.count == bb.cap) cv_wait(notfull);
     bb.buf[bb.tail] = me * 64 + i; bb.tail = (bb.tail + 1) % bb.cap; bb.count++;
-    if (bb.one_cv) cv_broadcast(notempty); else cv_signal(notempty);
+    if (!g_unlocked) { if (bb.one_cv) cv_broadcast(notempty); else cv_signal(notempty); }
     m_unlock();
+    if (g_unlocked) { if (bb.one_cv) cv_broadcast_unlocked(notempty); else cv_signal_unlocked(notempty); }
     do_yields(bb.yp[me]);
     op_done();
   }
@@ -85,8 +93,9 @@ static void * bb_consumer(void * a) {
     int v = bb.buf[bb.head]; bb.head = (bb.head + 1) % bb.cap; bb.count--;
     if (v < 0 || v >= 8 * 64) mt_fail("consumed an item that was never produced: %d", v);
     bb.consumed[v]++;
-    if (bb.one_cv) cv_broadcast(notfull); else cv_signal(notfull);
+    if (!g_unlocked) { if (bb.one_cv) cv_broadcast(notfull); else cv_signal(notfull); }
     m_unlock();
+    if (g_unlocked) { if (bb.one_cv) cv_broadcast_unlocked(notfull); else cv_signal_unlocked(notfull); }
     do_yields(bb.yc[me]);
     op_done();
   }
@@ -94,7 +103,7 @@ static void * bb_consumer(void * a) {
 }
 
 /* ---------------- pattern 1: gate ---------------- */
-static struct { int k, use_broadcast, delay, open, passed, opener_pos; int yw[16]; } gt;
+static struct { int k, use_broadcast, delay, open, passed, opener_pos, tokens; int yw[16], ys[16]; } gt;
 static void * gate_waiter(void * a) {
   int me = (int)(intptr_t)a;
   do_yields(gt.yw[me]);
@@ -105,14 +114,33 @@ static void * gate_waiter(void * a) {
   op_done();
   return 0;
 }
+/* token gate (unlocked idiom): k waiters each take one token, k signallers each add one and signal after unlocking */
+static void * token_waiter(void * a) {
+  int me = (int)(intptr_t)a;
+  do_yields(gt.yw[me]);
+  m_lock();
+  while (gt.tokens == 0) cv_wait(&g_cv[0]);
+  gt.tokens--; gt.passed++;
+  m_unlock();
+  op_done();
+  return 0;
+}
+static void * token_signaller(void * a) {
+  int me = (int)(intptr_t)a;
+  do_yields(gt.ys[me]);
+  m_lock(); gt.tokens++; m_unlock();
+  cv_signal_unlocked(&g_cv[0]);
+  op_done();
+  return 0;
+}
 static void * gate_opener(void * a) {
   (void)a;
   do_yields(gt.delay);
   m_lock();
   gt.open = 1;
-  if (gt.use_broadcast) cv_broadcast(&g_cv[0]);
-  else for (int i = 0; i < gt.k; i++) cv_signal(&g_cv[0]);
+  if (!g_unlocked) { if (gt.use_broadcast) cv_broadcast(&g_cv[0]); else for (int i = 0; i < gt.k; i++) cv_signal(&g_cv[0]); }
   m_unlock();
+  if (g_unlocked) { if (gt.use_broadcast) cv_broadcast_unlocked(&g_cv[0]); else for (int i = 0; i < gt.k; i++) cv_signal_unlocked(&g_cv[0]); }
   op_done();
   return 0;
 }
@@ -126,8 +154,9 @@ static void * ts_thread(void * a) {
     while (ts.turn != me) cv_wait(ts.per_thread_cv ? &g_cv[me] : &g_cv[0]);
     ts.passes++;
     ts.turn = (me + 1) % ts.n;
-    if (ts.per_thread_cv) cv_signal(&g_cv[ts.turn]); else cv_broadcast(&g_cv[0]);
+    if (!g_unlocked) { if (ts.per_thread_cv) cv_signal(&g_cv[ts.turn]); else cv_broadcast(&g_cv[0]); }
     m_unlock();
+    if (g_unlocked) { if (ts.per_thread_cv) cv_signal_unlocked(&g_cv[ts.turn]); else cv_broadcast_unlocked(&g_cv[0]); }
     do_yields(ts.yt[me]);
     op_done();
   }
@@ -140,6 +169,9 @@ void scen_c05(mt_case * c) {
   mt_decode_engine(c, &e, 8);
   int pattern = (int)rd_below(r, 3);
   int pre_sig = (int)rd_below(r, 3), pre_bc = (int)rd_below(r, 2);
+  unsigned ub = rd_u8(r);
+  g_unlocked = (ub % 3) == 0;
+  int token_gate = g_unlocked && (ub & 0x40);
   int max_items = c->tier ? 40 : 8;
   myth_thread_t th[40]; int nth = 0;
   int ncv = 1;
@@ -161,7 +193,7 @@ void scen_c05(mt_case * c) {
     mt_label(bb.one_cv ? "bb_broadcast" : "bb_signal");
   } else if (pattern == 1) {
     gt.k = rd_range(r, 1, c->tier ? 16 : 8); gt.use_broadcast = (int)rd_below(r, 2); gt.delay = (int)rd_below(r, 6);
-    for (int i = 0; i < gt.k; i++) gt.yw[i] = (int)rd_below(r, 4);
+    for (int i = 0; i < gt.k; i++) { gt.yw[i] = (int)rd_below(r, 4); gt.ys[i] = token_gate ? (int)rd_below(r, 4) : 0; }
     gt.opener_pos = (int)rd_below(r, (unsigned)gt.k + 1);
     mt_desc("C05 gate waiters=%d opener: %s after %d yields; waiter delays:", gt.k, gt.use_broadcast ? "1 broadcast" : "k signals", gt.delay);
     for (int i = 0; i < gt.k; i++) mt_desc(" %d", gt.yw[i]);
@@ -174,7 +206,8 @@ void scen_c05(mt_case * c) {
     mt_desc("C05 turnstile n=%d rounds=%d %s\n", ts.n, ts.rounds, ts.per_thread_cv ? "per-thread condvar + signal" : "one condvar + broadcast");
     mt_label(ts.per_thread_cv ? "ts_signal" : "ts_broadcast");
   }
-  mt_desc(" prefix: %d signals and %d broadcasts with no waiter\n", pre_sig, pre_bc);
+  mt_desc(" prefix: %d signals and %d broadcasts with no waiter; notifications issued %s%s\n", pre_sig, pre_bc, g_unlocked ? "after releasing the mutex" : "while holding the mutex", (pattern == 1 && token_gate) ? "; token gate: k signallers, one token and one signal each" : "");
+  if (g_unlocked) mt_label("notify_after_unlock");
   mt_hash(c->prog.p, c->prog.pos);
 
   mt_lib_start(c, &e, 0);
@@ -190,6 +223,11 @@ void scen_c05(mt_case * c) {
   if (pattern == 0) {
     for (int j = 0; j < bb.C; j++) myth_create_ex(&th[nth++], 0, bb_consumer, (void *)(intptr_t)j);
     for (int i = 0; i < bb.P; i++) myth_create_ex(&th[nth++], 0, bb_producer, (void *)(intptr_t)i);
+  } else if (pattern == 1 && token_gate) {
+    for (int i = 0; i < gt.k; i++) {
+      if ((gt.opener_pos + i) & 1) { myth_create_ex(&th[nth++], 0, token_signaller, (void *)(intptr_t)i); myth_create_ex(&th[nth++], 0, token_waiter, (void *)(intptr_t)i); }
+      else { myth_create_ex(&th[nth++], 0, token_waiter, (void *)(intptr_t)i); myth_create_ex(&th[nth++], 0, token_signaller, (void *)(intptr_t)i); }
+    }
   } else if (pattern == 1) {
     int opener_pos = gt.opener_pos;
     for (int i = 0; i < gt.k; i++) {
@@ -214,6 +252,7 @@ void scen_c05(mt_case * c) {
     if (bb.count != 0) mt_fail("buffer not empty at the end: %d", bb.count);
   } else if (pattern == 1) {
     if (gt.passed != gt.k) mt_fail("gate: %d of %d waiters passed", gt.passed, gt.k);
+    if (token_gate && gt.tokens != 0) mt_fail("token gate: %d tokens left", gt.tokens);
   } else {
     if (ts.passes != (long)ts.n * ts.rounds) mt_fail("turnstile: %ld passes, expected %d", ts.passes, ts.n * ts.rounds);
   }
